@@ -66,7 +66,7 @@ back by the strict walker, i.e. at every level the size field equals the extent 
 `P` and `S` are arbitrary bytes around the atom list (for instance a final size-0 `mdat`).
 Hypotheses: the tree is well-formed before and after (in particular the new sizes still fit their
 fields; a 32-bit size that would exceed 2^32-1 is outside the theorem — the code raises
-struct.error there). -/
+MP4MetadataError there, after the bytes were already replaced). -/
 theorem parent_sizes (frames : List Frame) (h : Hole) (mid mid' : List Atom) (P S : Bytes)
     (hw : wfList (fill frames h mid)) (hw' : wfList (fill frames h mid')) :
     updateParents
@@ -243,7 +243,8 @@ def size0Moov : Bytes :=
 /-- `size0_moov_counterexample`: `__update_parents` adds `delta` to the size field 0 of a `moov`
 that extends to the end of the file: the save finishes, and the `moov` now claims 12 bytes while
 it holds 48 — the strict walker rejects the result.  (Real code: same bytes; with a negative
-`delta` struct.error escapes after the file was modified.  Key `mp4:parent-size:size0-moov`.) -/
+`delta` the save stops with MP4MetadataError after the file was modified.  Key
+`mp4:parent-size:size0-moov`.) -/
 theorem size0_moov_counterexample :
     (walkFile size0Moov).isSome = true ∧
     (saveRegion size0Moov (fun _ => twoMoofNew)).1 = none ∧
